@@ -336,6 +336,16 @@ ASSUMPTIONS = (
 )
 
 
+def type_filter_split(c0, c1, vt0, vt1, which):
+  """split / filter by plain Variable-type filters partitions by FIRST match (shared
+  with C14's reference): (Variable, Param) puts everything in the first group,
+  (Param, subclass-of-Param) leaves the second group empty, ..."""
+  from harness import c14 as C14
+  idx = [0, 5, 6, 7]          # positions in C14.SPLIT_LEAVES: Param, BatchStat,
+  return C14.nnx_split(2, pick(idx, c0), pick(idx, c1), 0, 2, vt0, vt1, 0, 0, 0, 0,
+                       which)    # Variable, _SubParam
+
+
 def obligations(tier):
   quick = tier == 'quick'
   F = qualnames(TU.flatten_dict, TU.unflatten_dict, TU.path_aware_map,
@@ -376,6 +386,13 @@ def obligations(tier):
               bty=I(0, 0)), split=('abits',) if not quick else (),
          timeout=300, funcs=G,
          bounds='pairs of states over all subsets of the first %d paths' % np_),
+      Ob('state_split_type_filters', type_filter_split,
+         dict(c0=I(0, 3), c1=I(0, 3), vt0=I(0, 4), vt1=I(0, 4), which=I(0, 3)),
+         split=('which', 'c0'), timeout=300, funcs=G,
+         bounds='2 entries of 5 Variable types (incl. a subclass of Param), 2 filters '
+                'from {Param, BatchStat, Variable, subclass}: first match wins also '
+                'when an earlier type filter is a superclass of a later one; '
+                '_split_state / filter_state / State.split / split_flat_state'),
       Ob('state_split_merge', split_merge,
          dict(bits=bits, ty=bits, f0=I(0, 4), f1=I(0, 4),
               nf=I(1, 2)),
